@@ -1185,7 +1185,7 @@ const COLORS: [RGBA; 16] = [
     RGBA::new(255, 255, 255, 255),
 ];
 
-fn sgr_color<'a>(mut cmds: impl Iterator<Item = &'a [u8]>) -> Option<RGBA> {
+fn sgr_color<'a>(mut cmds: impl Iterator<Item = &'a [u8]>, sub_params: bool) -> Option<RGBA> {
     match number_decode(cmds.next()?)? {
         5 => {
             // color from 256 color palette
@@ -1210,13 +1210,19 @@ fn sgr_color<'a>(mut cmds: impl Iterator<Item = &'a [u8]>) -> Option<RGBA> {
         2 => {
             // true color
             //
-            // It can contain either three or four components
-            // in the case of four first component is ignored
+            // Colon separated sub-parameters can contain either three or four
+            // components, in the case of four first component is ignored.
+            // Semicolon separated form has exactly three components, anything
+            // that follows is the next SGR parameter.
             match [
                 cmds.next().and_then(number_decode),
                 cmds.next().and_then(number_decode),
                 cmds.next().and_then(number_decode),
-                cmds.next().and_then(number_decode),
+                if sub_params {
+                    cmds.next().and_then(number_decode)
+                } else {
+                    None
+                },
             ] {
                 [Some(r), Some(g), Some(b), None] | [_, Some(r), Some(g), Some(b)] => {
                     Some(RGBA::new(r as u8, g as u8, b as u8, 255))
@@ -1238,9 +1244,9 @@ fn sgr_face(data: &[u8]) -> FaceModify {
         let args_empty = args.size_hint().0 == 0;
         let mut sgr_color_thunk = || {
             if args_empty {
-                sgr_color(&mut groups)
+                sgr_color(&mut groups, false)
             } else {
-                sgr_color(&mut args)
+                sgr_color(&mut args, true)
             }
         };
         match cmd {
